@@ -79,6 +79,10 @@ claimed = {
    text="Decides from source for package ardop: crash-site inventory from all goroutines and methods of the driver (compiler proofs + fact engine; 11 sites excepted with reasons, listed as assumed); every unchecked type assertion on a control message's value - direct, through Bool/State/String/Int, or through the get* wrappers - runs only under commands whose parser arm assigns exactly that dynamic type on every path; no arithmetic on a 16-bit wire length before widening; CRC bytes and frame bodies read with io.ReadFull, error tested, mismatch refuses the frame; all byte order objects BigEndian, 16-bit length on both sides, data truncated to 65535 (proved) with the count reported, C:/D: prefixes and CRC coverage on the serial edge, CRCFAULT leads back to the send; flush lock released only by updateBuffer on BUFFER 0, taken by Write on the BUFFER arm, Flush returns nil only from the wait; SetPTT is a plain call on the PTT arm of the dispatch goroutine; Close exits only after sending DISCONNECT; Read returns the copy count, keeps and first serves the remainder; ARQ payloads are queued with a blocking send. Does not decide stream equality, retransmission timing, event interleavings, or the unsynchronised TNC state fields.",
    technique="crash-site inventory (compiler BCE + difference-bound facts), producer/consumer agreement on dynamic types across parser arms and guarded assertions, width/endianness/typestate rules on SSA, dominance of effects",
    ref="DESIGN.md section 4, C14"),
+ "C03": dict(
+   text="Decides from source, for all remote transcripts at once: crash-site inventory over the 119 functions reachable from Exchange in fbb, lzhuf (decoder) and mailbox: every index/slice site proven in range by the compiler's prove pass or by the fact engine (length guards, library post-conditions, caller facts, field invariants), bounded make sizes, nil-guarded calls through func fields, no reachable panic/log.Fatal/os.Exit/unchecked assertion except a reviewed exception table (handler contract, local outbox state, sort.Interface contract) and the adaptive-tree indices, both listed as ASSUMED and never counted as discharged; every loop that reads from the remote tests, on each iteration, the error of a read with the error edge leaving the loop; the decompressor cannot return (0,nil) forever; the connection is closed on every exit. Does not decide nil dereferences, termination of non-reading loops, memory used inside the standard library, decompression ratio.",
+   technique="crash-site inventory over the call-graph closure, discharged by compiler bounds-check-elimination proofs and a difference-bound fact engine with interprocedural facts; natural-loop analysis of remote reads; abstract case enumeration; dominance of the deferred close",
+   ref="DESIGN.md section 4, C03"),
 }
 
 not_applicable = {
